@@ -692,7 +692,9 @@ pub fn gen_step(ty: usize, n: usize, mode: Mode, max_len: usize, rng: &mut Rng) 
     loop {
         let choice = match mode {
             Mode::Edits => rng.below(13),
-            Mode::Capacity => *rng.pick(&[0usize, 1, 2, 3, 4, 5, 6, 7, 8, 9, 10, 11, 12, 13, 14, 20, 20, 20, 20, 21, 21, 21, 33, 33, 15, 16, 17]),
+            Mode::Capacity => *rng.pick(&[
+                0usize, 1, 2, 3, 4, 5, 6, 7, 8, 9, 10, 11, 12, 13, 14, 20, 20, 20, 20, 20, 21, 21, 21, 21, 33, 33, 15, 16, 17, 18, 19, 22, 22, 23, 24, 24, 25, 26, 27,
+            ]),
             Mode::All => rng.below(34),
         };
         let step = match choice {
